@@ -316,10 +316,12 @@ Ax(n, m) == Par(n) \o (IF m > n THEN "<" ELSE IF m < n THEN ">" ELSE "=") \o Par
 Geo(r) == (IF r.oy # 0 \/ r.ox # 0 THEN ":origin" ELSE "") \o (IF r.hy # r.hx THEN ":aniso" ELSE "")
 Ker(r) == IF r.kh = r.kw THEN ":ksquare" ELSE ":knonsquare"
 TouchesFrame(r) == \E p \in Un(r) : p[1] = 0 \/ p[2] = 0 \/ p[1] = r.h - 1 \/ p[2] = r.w - 1
+\* how the target shape / kernel shape was handed over (Python ints, numpy scalars of some type, array ...)
+ShapeTy(r) == IF "shape_type" \in DOMAIN r THEN ":shape=" \o r.shape_type ELSE ""
 Sig(r) ==
     CASE r.api \in {"resize_array", "resize_mask", "grow_shrink", "trimmed_array_from"} ->
-           r.api \o ":y" \o Ax(r.h, r.h2) \o ":x" \o Ax(r.w, r.w2) \o Geo(r)
-      [] r.api \in {"pad", "trim", "pad_trim", "dataset_trim"} -> r.api \o Ker(r) \o Geo(r)
+           r.api \o ":y" \o Ax(r.h, r.h2) \o ":x" \o Ax(r.w, r.w2) \o Geo(r) \o ShapeTy(r)
+      [] r.api \in {"pad", "trim", "pad_trim", "dataset_trim"} -> r.api \o Ker(r) \o Geo(r) \o ShapeTy(r)
       [] r.api = "autopad" ->
            r.api \o (IF FootLeaves(Un(r), r.h, r.w, r.kh, r.kw) THEN ":leaves" ELSE ":fits") \o Ker(r) \o Geo(r)
       [] r.api = "zoom" -> r.api \o (IF TouchesFrame(r) THEN ":touches-frame" ELSE ":interior") \o ":b" \o ToString(r.b)
